@@ -271,6 +271,75 @@ def concurrent_first_use(rec, rng, n):
                 if got != expected1:
                     rec.violation("C04/concurrent-first-use-builds-differently", f"thread {i}: first build{call!r} = {got!r}, alone it gives {expected1!r}", {"endpoint": call[0], "values": repr(call[1])}, monitor="schedule-stress")
                     break
+        # ---- third phase: a map that is being extended by several threads at once (plug-ins registering their rules while the application starts).  Yields
+        # inside Map.add and the matcher's add.  Once the threads are done, every rule that builds must match what it built, exactly as on a map filled by one thread.
+        for c_ in codes:
+            mon.set_local_events(TOOL, c_, 0)
+        acodes = [MP.Map.add.__code__, _MM.StateMachineMatcher.add.__code__]
+        for c_ in list(acodes):
+            acodes += [k for k in c_.co_consts if hasattr(k, "co_code")]
+        codes += acodes
+        from werkzeug.routing import Subdomain, Submount
+
+        for _ in range(n):
+            fresh = rng.random() < 0.5
+            m = Map([] if fresh else [Rule("/", endpoint="index")])
+            NT = rng.choice([2, 2, 3])
+            prefix = rng.choice(["/shop", "/api/v1", "/kb"])
+            shape = rng.choice(["plain", "submount", "subdomain"])
+            per_thread = []
+            for i in range(NT):
+                mine = [Rule(f"{prefix}/t{i}/<int:n>", endpoint=f"t{i}.item"), Rule(f"{prefix}/t{i}/", endpoint=f"t{i}.index"), Rule(f"{prefix}/<int:n>/t{i}", endpoint=f"t{i}.rev")]
+                if shape == "submount":
+                    mine = [Submount("/sub", mine)]
+                elif shape == "subdomain":
+                    mine = [Subdomain("kb", mine)]
+                per_thread.append(mine)
+            barrier = threading.Barrier(NT)
+            errs = []
+
+            def adder(i):
+                barrier.wait()
+                try:
+                    for f in per_thread[i]:
+                        m.add(f)
+                except Exception as e:  # noqa: BLE001
+                    errs.append(f"{type(e).__name__}: {e}")
+
+            ts = [threading.Thread(target=adder, args=(i,)) for i in range(NT)]
+            for c_ in acodes:
+                mon.set_local_events(TOOL, c_, mon.events.LINE)
+            armed[0] = True
+            try:
+                for t in ts:
+                    t.start()
+                for t in ts:
+                    t.join(60)
+            finally:
+                armed[0] = False
+                for c_ in acodes:
+                    mon.set_local_events(TOOL, c_, 0)
+            rec.case()
+            rec.observe("maps_extended_by_several_threads")
+            rec.nontrivial(("conc-add", fresh, NT, prefix, shape))
+            case = {"part": "concurrent-add", "threads": NT, "prefix": prefix, "shape": shape, "fresh_map": fresh}
+            if errs:
+                rec.violation("C04/concurrent-add-raises", f"{errs[:2]}; {case}", case, monitor="schedule-stress")
+                continue
+            ad = m.bind("h.com", subdomain="kb" if shape == "subdomain" else "")
+            for i in range(NT):
+                for ep, v in ((f"t{i}.item", {"n": 5}), (f"t{i}.index", {}), (f"t{i}.rev", {"n": 7})):
+                    try:
+                        u = ad.build(ep, dict(v))
+                        got = ad.match(u)
+                    except Exception as e:  # noqa: BLE001
+                        got = f"{type(e).__name__}"
+                    if got != (ep, v):
+                        rec.violation("C04/rule-added-concurrently-builds-but-does-not-match", f"{NT} threads extended one map; build({ep!r}, {v!r}) works, matching the result gives {got!r}; {case}", case, monitor="schedule-stress")
+                        break
+                else:
+                    continue
+                break
     finally:
         for c_ in codes:
             mon.set_local_events(TOOL, c_, 0)
@@ -364,6 +433,60 @@ def own_defaults(rec, rng):
             return
 
 
+def results_in_the_callers_hands(rec, rng):
+    """History: what match() returned belongs to the caller.  A caller that consumes values from it (view-argument
+    preprocessors pop the language code), clears it or adds to it must not change what later round trips through the
+    same map return - for rules whose values come from the URL, from defaults only, or from both."""
+    from werkzeug.exceptions import HTTPException
+    from werkzeug.routing import Map, Rule, Subdomain, Submount
+
+    shared = {"currency": "EUR"}
+    rules = [
+        Rule("/list/", defaults={"lang": "en", "page": 1}, endpoint="list"), Rule("/list/<int:page>", defaults={"lang": "en"}, endpoint="list"),
+        Rule("/price", defaults=shared, endpoint="price"), Rule("/cost", defaults=shared, endpoint="cost"),
+        Submount("/sub", [Rule("/home", defaults={"tab": "main"}, endpoint="subhome")]),
+        Subdomain("<sd>", [Rule("/home", defaults={"tab": "main"}, endpoint="sdhome")]),
+        Rule("/plain", endpoint="plain"), Rule("/item/<int:n>", endpoint="item"),
+    ]
+    m = Map(rules)
+    ad = m.bind("h.com", "/")
+    trips = [("list", {"lang": "en", "page": 1}), ("list", {"lang": "en", "page": 4}), ("price", {"currency": "EUR"}), ("cost", {"currency": "EUR"}),
+             ("subhome", {"tab": "main"}), ("plain", {}), ("item", {"n": 3})]
+    edits = ["pop-all", "clear", "add", "overwrite", "none"]
+    case = {"part": "match-result-edited-by-the-caller"}
+    for rnd in range(3):
+        rng.shuffle(trips)
+        for ep, vals in trips:
+            rec.case()
+            rec.nontrivial(("callers-hands", ep, rnd))
+            try:
+                url = ad.build(ep, dict(vals))
+                got_ep, got = ad.match(url)
+            except HTTPException as e:
+                rec.violation("C04/round-trip-fails-after-a-caller-edited-an-earlier-result", f"round {rnd}: build/match of {ep!r} {vals!r}: {type(e).__name__}", case, monitor="history")
+                return
+            except Exception as e:  # noqa: BLE001
+                rec.violation(f"C04/build-raises-{type(e).__name__}", f"round {rnd}: build/match of {ep!r} {vals!r}: {e!r}", case, monitor="history")
+                return
+            rec.observe("round_trips_after_caller_edits" if rnd else "round_trips_before_caller_edits")
+            if (got_ep, dict(got)) != (ep, vals):
+                rec.violation("C04/round-trip-differs-after-a-caller-edited-an-earlier-result", f"round {rnd}: built {url!r} from {ep!r} {vals!r}; matching gives {got_ep!r} {dict(got)!r}", case, monitor="history")
+                return
+            how = rng.choice(edits)
+            if how == "pop-all":
+                for k in list(got):
+                    got.pop(k)
+            elif how == "clear":
+                got.clear()
+            elif how == "add":
+                got["injected"] = "x"
+            elif how == "overwrite":
+                for k in list(got):
+                    got[k] = "changed"
+    if shared != {"currency": "EUR"}:
+        rec.violation("C04/map-edits-the-defaults-dict-the-application-passed", f"{shared!r}", case, monitor="history")
+
+
 def odd_names_and_shared_paths(rec, rng):
     """Variables named like things the generated builder function uses itself (self, kwargs, q, params, class ...),
     with and without extra query values; and one endpoint whose rules share a path on two subdomains, one of them
@@ -440,6 +563,7 @@ def run(shard, rec, rng):
     })
     cfg = TIERS[shard["_tier"]]
     concurrent_first_use(rec, rng, cfg.get("concurrent", 6))
+    results_in_the_callers_hands(rec, rng)
     wide_rules(rec, rng)
     own_defaults(rec, rng)
     odd_names_and_shared_paths(rec, rng)
